@@ -83,6 +83,10 @@ def case_ip4 (c, rep):
     "int_net": lambda: A.IPAddr(native_n, networkOrder=True),
     "copy": lambda: A.IPAddr(A.IPAddr(text)),
     "signed_host": lambda: A.IPAddr(v - (1 << 32) if v & 0x80000000 else v),
+    # (the round trip the byte-order flag exists for, negative values included)
+    "signed_net": lambda: A.IPAddr(native_n - (1 << 32) if native_n & 0x80000000
+                                   else native_n, networkOrder=True),
+    "bytearray_text": lambda: A.IPAddr(bytearray(text.encode())),
   }
   for name, mk in forms.items():
     try:
@@ -342,6 +346,9 @@ def case_ip6 (c, rep):
           ("bytearray", lambda: A.IPAddr6(bytearray(packed))),
           ("from_num", lambda: A.IPAddr6.from_num(v)),
           ("copy", lambda: A.IPAddr6(A.IPAddr6.from_raw(packed)))]
+  if v == 0:
+    # (no argument / None stand for the unspecified address)
+    cons += [("none", lambda: A.IPAddr6(None)), ("default", lambda: A.IPAddr6())]
   for name, t in ip6_texts(v, rng):
     try:
       ipaddress.IPv6Address(t)
@@ -375,6 +382,18 @@ def case_ip6 (c, rep):
       if s != ref.compressed:
         _fail(rep, "ip6 canonical text", "str = %r, RFC 5952 reference %r" %
               (s, ref.compressed), c)
+    elif s != "::ffff:" + dq(v & 0xffffffff):
+      # (RFC 5952 section 5: the mixed notation for IPv4-mapped addresses)
+      _fail(rep, "ip6 canonical text of a mapped address",
+            "str = %r, expected %r" % (s, "::ffff:" + dq(v & 0xffffffff)), c)
+    # the fully written-out form is eight groups of four digits
+    try:
+      full = a.to_str(zero_drop=False, section_drop=False, ipv4=False)
+      if full != ref.exploded:
+        _fail(rep, "ip6 exploded text", "to_str(no drops) = %r, reference %r" %
+              (full, ref.exploded), c)
+    except Exception as e:
+      _fail(rep, "ip6 exploded text raises %s" % type(e).__name__, repr(e), c)
     try:
       if int(ipaddress.IPv6Address(s)) != v:
         _fail(rep, "ip6 text denotes other address",
@@ -384,7 +403,8 @@ def case_ip6 (c, rep):
       _fail(rep, "ip6 text not valid", "str = %r rejected by reference: %r" %
             (s, e), c)
     for kw in (dict(), dict(zero_drop=False), dict(section_drop=False),
-               dict(zero_drop=False, section_drop=False), dict(ipv4=False)):
+               dict(zero_drop=False, section_drop=False), dict(ipv4=False),
+               dict(ipv4=True), dict(ipv4=True, section_drop=False)):
       try:
         t = a.to_str(**kw)
         b = A.IPAddr6(t)
@@ -466,6 +486,22 @@ def case_ip6net (c, rep):
       elif ok and (r[1] != b or type(r[0]) is not A.IPAddr6 or r[0].num != v):
         _fail(rep, "ip6 parse_cidr form=%s value" % name,
               "IPAddr6.parse_cidr(%r) = %r" % (at + sfx, r), c)
+  # ... and without any prefix: a single address is its own /128
+  try:
+    r = A.IPAddr6.parse_cidr(at)
+    if r[1] != 128 or r[0].num != v:
+      _fail(rep, "ip6 parse_cidr of a bare address",
+            "IPAddr6.parse_cidr(%r) = %r, expected /128" % (at, r), c)
+    other = A.IPAddr6.from_num(v ^ 1)
+    if not a.in_network(str(a)) and v == int(ipaddress.IPv6Address(str(a))):
+      pass
+    got_self = A.IPAddr6.from_num(v).in_network(at)
+    got_other = other.in_network(at)
+    if got_self is not True or got_other is not False:
+      _fail(rep, "ip6 in_network of a bare address",
+            "%s in %s = %r; its neighbour: %r" % (at, at, got_self, got_other), c)
+  except Exception as e:
+    _fail(rep, "ip6 parse_cidr of a bare address raises %s" % type(e).__name__, repr(e), c)
   rep.count("ip6net")
 
 
@@ -568,6 +604,18 @@ def ip6_bad_mutations (rng):
       out.append(("junk_%s_before_group" % name, base[:p + 1] + ch + base[p + 1:]))
     # (stray white space around the prefix *length* is not judged: POX reads
     #  it with int(), which ignores it, and nothing is mis-parsed)
+  # the dotted part of the mixed notation is an IPv4 address in its
+  # strictest form: four decimal octets, nothing else
+  for base in ("::ffff:", ":".join(g[:6]) + ":", g[0] + "::"):
+    for cls, dotted in (("three_parts", "1.2.3"), ("two_parts", "1.2"), ("one_part", "7"),
+                        ("five_parts", "1.2.3.4.5"), ("leading_zero_octet", "010.1.1.1"),
+                        ("hex_octet", "0x10.1.1.1"), ("empty_octet", "1..2.3"),
+                        ("trailing_dot", "1.2.3.4."), ("trailing_text", "1.2.3.4 junk"),
+                        ("negative_octet", "1.2.3.-4"), ("plus_octet", "1.2.3.+4")):
+      out.append(("mixed_dotted_" + cls, base + dotted))
+    for name, ch in JUNK:
+      out.append(("mixed_junk_%s_at_end" % name, base + "1.2.3.4" + ch))
+      out.append(("mixed_junk_%s_inside" % name, base + "1.2" + ch + ".3.4"))
   out = [(cls, t) for cls, t in out]
   ok = []
   for cls, t in out:
@@ -587,6 +635,20 @@ def ip6_bad_mutations (rng):
 def case_ip6bad (c, rep):
   A = _A()
   t = c["text"]
+  if c.get("form") == "raw":
+    n = int(t)
+    for name, f in (("from_raw", lambda: A.IPAddr6.from_raw(b"\x20" * n)),
+                    ("raw_kw", lambda: A.IPAddr6(raw=b"\x20" * n)),
+                    ("bytearray", lambda: A.IPAddr6(bytearray(b"\x20" * n)))):
+      try:
+        r = f()
+        sr = str(r)
+      except Exception:
+        continue
+      _fail(rep, "ip6 raw value of the wrong length accepted by %s" % name,
+            "%d octets gave %r" % (n, sr), c)
+    rep.count("ip6bad")
+    return
   if "/" in t:
     fs = [("IPAddr6.parse_cidr", lambda: A.IPAddr6.parse_cidr(t)),
           ("in_network", lambda: A.IPAddr6("::1").in_network(t))]
@@ -616,7 +678,12 @@ def case_eth (c, rep):
            ("list", lambda: A.EthAddr(list(raw))),
            ("tuple", lambda: A.EthAddr(tuple(raw))),
            ("bytearray", lambda: A.EthAddr(bytearray(raw))),
-           ("copy", lambda: A.EthAddr(A.EthAddr(raw)))]
+           ("copy", lambda: A.EthAddr(A.EthAddr(raw))),
+           # other six-element sequences (copied, not kept)
+           ("array", lambda: A.EthAddr(__import__("array").array("B", raw))),
+           ("memoryview", lambda: A.EthAddr(memoryview(bytes(raw))))]
+  if raw == b"\0" * 6:
+    forms.append(("none", lambda: A.EthAddr(None)))
   for name, mk in forms:
     if name == "short" and len(":".join("%x" % b for b in raw)) in (6, 12, 17):
       continue      # textual form is ambiguous with another accepted form
@@ -766,7 +833,14 @@ def case_laws (c, rep):
         if a == b and b == cc and not a == cc:
           _fail(rep, "laws %s eq transitive" % kind, "%s %s %s" % (a, b, cc), c)
     # compares unequal to unrelated things without raising
-    for other in (5.5, "not an address", object()):
+    others = [5.5, "not an address", object(), None, b"", ()]
+    # an address of another family is not equal either (and comparing must
+    # not blow up)
+    others += [x for x in (A.IPAddr("1.2.3.4"), A.IPAddr6("::1"),
+                           A.EthAddr("00:00:00:00:00:01"), A.IPAddr(0),
+                           A.IPAddr6("::"), A.EthAddr(b"\0" * 6))
+               if type(x) is not type(a)]
+    for other in others:
       try:
         if a == other or not (a != other):
           _fail(rep, "laws %s equals unrelated" % kind, "%s == %r" % (a, other), c)
@@ -802,6 +876,23 @@ def case_immut (c, rep):
               (type(o).__name__, type(e).__name__), repr(e), c)
     if (o.raw, str(o), hash(o)) != before:
       _fail(rep, "immut %s changed" % type(o).__name__, "%r" % (before,), c)
+    for attr in ("_value", "raw"):
+      try:
+        delattr(o, attr)
+      except (TypeError, AttributeError):
+        pass
+      except Exception as e:
+        _fail(rep, "immut %s delattr raises %s" % (type(o).__name__, type(e).__name__), repr(e), c)
+      try:
+        now = (o.raw, str(o), hash(o))
+      except Exception as e:
+        now = ("broken", repr(e))
+      if now != before:
+        _fail(rep, "immut %s attribute could be deleted" % type(o).__name__,
+              "after delattr(%s): %r" % (attr, now), c)
+        try: object.__setattr__(o, "_value", o._value)
+        except Exception: pass
+        return
     # running the constructor again on a live value (any accepted input form)
     # must not re-seat it either; whether it raises is not judged
     if isinstance(o, A.IPAddr):
@@ -977,6 +1068,8 @@ def gen (kind, rng, scale):
     for _ in range(200 * scale):
       yield dict(t="ip6mask", mask=str(rng.getrandbits(128)))
   elif kind == "ip6bad":
+    for n in (0, 1, 4, 15, 17, 32):
+      yield dict(t="ip6bad", text=str(n), cls="raw_length_%d" % n, form="raw")
     for _ in range(60 * scale):
       for cls, t in ip6_bad_mutations(rng):
         yield dict(t="ip6bad", text=t, cls=cls)
@@ -1005,6 +1098,21 @@ def gen (kind, rng, scale):
       if isinstance(arg, tuple): d["as"] = "tuple"; d["arg"] = list(arg)
       if isinstance(arg, bytearray): d["as"] = "bytearray"; d["arg"] = list(arg)
       yield d
+    # stray characters, signs, prefixes and blanks in every accepted textual
+    # shape (what int(x, 16) quietly swallows is not hex)
+    shapes = [("colon17", "0a:1b:2c:3d:4e:5f"), ("dash17", "0a-1b-2c-3d-4e-5f"),
+              ("hex12", "0a1b2c3d4e5f"), ("short_colon", "a:1b:2:3d:4:5f")]
+    strays = list(JUNK) + [("plus", "+"), ("minus", "-"), ("hexprefix", "0x"),
+                           ("underscore", "_"), ("uppercase_x", "X")]
+    for sn, base in shapes:
+      for name, ch in strays:
+        if sn == "dash17" and name == "minus": continue
+        for where, t in (("front", ch + base), ("end", base + ch),
+                         ("inside", base[:1] + ch + base[1:]),
+                         ("replace", ch + base[len(ch):]),
+                         ("replace_end", base[:-len(ch)] + ch)):
+          if t in (base,): continue
+          yield dict(t="ethbad", cls="stray_%s_in_%s" % (name, sn), arg=t)
     for _ in range(100 * scale):
       g = ["%x" % rng.randrange(256) for _ in range(6)]
       g[rng.randrange(6)] = "%x" % rng.randrange(256, 0x10000)
